@@ -161,7 +161,10 @@ def _to_string(
                 out += indeterminant
             if exponent > 1:
                 out += options["display_exponent"] + str(exponent)
-        if output and float(coefficients[idx]) >= 0:
+        # a term either starts with its own minus sign or needs a plus; the
+        # sign of the real part says nothing for complex coefficients, which
+        # are printed in parentheses
+        if output and not out.startswith("-"):
             out = "+" + out
         output.append(out)
 
